@@ -400,6 +400,9 @@ def handle (cmd : String) (f : List String) : String × String × String :=
   if cmd == "C15.route" then handleRoute f
   else if cmd == "C15.hist" then handleHist f
   else if cmd == "C15.loop" then handleLoop f
+  else if cmd == "C15.cas" then
+    let (d, j, t) := handleHist f
+    (d, j, "cas-retry " ++ t)
   else if cmd == "C15.repl" then handleRepl f
   else if cmd == "C15.mrepl" then handleMrepl f
   else ("unknown-cmd", "-", "-")
